@@ -14,10 +14,11 @@ pub fn gen(stream: &str, r: &mut Rng, index: u64) -> String {
         "rdata" => decode::gen_rdata(r, index),
         "reader" => decode::gen_reader(r, index),
         "readerx" => decode::gen_readerx(r, index),
+        "xmark" => decode::gen_xmark(r, index),
         "iter" => decode::gen_iter(r, index),
         "rrset" => decode::gen_rrset(r, index),
         "nameeq" => decode::gen_nameeq(r, index),
-        "text" | "cmp" | "query" => text::gen(stream, r, index),
+        "text" | "cmp" | "query" | "roundtrip" => text::gen(stream, r, index),
         "c11" | "c12" | "c13" | "c14" | "c15" | "c16" => client::gen(stream, r, index),
         _ => panic!("unknown stream {}", stream),
     }
@@ -30,11 +31,12 @@ pub fn eval(line: &str) -> String {
         Some("client") => client::eval(&toks),
         Some("rdata") => decode::eval_rdata(&toks),
         Some("reader") => decode::eval_reader(&toks),
+        Some("xmark") => decode::eval_xmark(&toks),
         Some("iter") => decode::eval_iter(&toks),
         Some("rrset") => decode::eval_rrset(&toks),
         Some("nameeq") => decode::eval_nameeq(&toks),
         Some("check") | Some("checklabel") | Some("parse") | Some("wname") | Some("cmp") | Some("eqstr")
-        | Some("query") => text::eval(&toks),
+        | Some("query") | Some("rt") | Some("enc") => text::eval(&toks),
         _ => "bad-request".to_string(),
     }
 }
